@@ -228,7 +228,23 @@ other("C16", "img_tools.get_window (ROI window clipped to the image, first/last 
       "disparity variable, classification / segmentation, ROI equals crop:",
       trusted=["assumed: rasterio reader.read(band, window=w) is a pure function of (path, band, window) returning a 2-D integer "
                "array of the window's size (the size is a stated precondition: the input checker of C17 enforces it)"])
-other("C17", "no contract within reach decides this property (xarray dataset validation and file probing through rasterio); ")
+other("C17", "dataset side: check_dataset is proved, once per STRUCTURE of the dataset (8 cases: image only; + mask; multiband with "
+      "string band names + mask + 3-D classification + segmentation; numeric band names; no image; + disparity grids with a "
+      "band_disp coordinate; disparity without band_disp; a mandatory attribute missing) and for every size and content, to raise "
+      "(whatever exception) IF AND ONLY IF the statement's refusal condition holds -- no image, band names that are not strings, "
+      "an image entirely NaN, a variable off the image's row/column grid, a mandatory attribute missing, a disparity variable "
+      "without min and max bands or with min > max at some pixel; check_datasets is proved over 3 x 4 structure pairs, modularly "
+      "from check_dataset's contract: refused iff one dataset is refused, or the left has no disparity variable, or the two "
+      "images differ in size.  Input side: check_disparities_from_input (list: exactly two values with min <= max; grid file: 2 "
+      "bands, image size, min band <= max band everywhere -- which exception, and iff) and check_image_dimension, raster files "
+      "being opaque (count / width / height / bands are assumed pure functions of the path).  check_images, check_input_section, "
+      "the schema selection, file readability:",
+      trusted=["xarray modelled structurally: a dataset is a finite map of typed arrays with declared dimensions; membership, "
+               "iteration over variable names, .coords of a DataArray, .sel(label) (the label's existence is an obligation, its "
+               "uniqueness a stated precondition), set.issubset(labels) are modelled; arrays are homogeneous (a band_im coordinate "
+               "mixing strings and numbers is outside the model)",
+               "assumed: rasterio_open(path).count / .width / .height / .read(band) are pure functions of the path",
+               "the structure cases are a finite enumeration: a dataset shape outside them is covered by the bounded stand-in only"])
 other("C19", "no contract within reach decides this property (command-line entry point, rasterio file output, JSON round trip); ")
 other("C20", "margin tables of every step class decided exhaustively (@tables), Margins descriptors and the margins getters of "
       "the matching-cost / filter classes proved (value contracts), glue contracts on the <step>_check_conf callbacks (each step "
